@@ -20,6 +20,30 @@ pub fn bu(d: &[u64]) -> BigUint {
     }
     BigUint::new(v)
 }
+/// The same value on a buffer with spare capacity (at least `want` digits of capacity when the
+/// library's own shrink rule -- shrink when len < capacity/4 -- allows it).  Built only from public
+/// in-place operations; the achieved capacity is read through the raw-view hook and returned.
+pub fn with_slack(x: &BigUint, want: usize) -> (BigUint, usize) {
+    let len = x.to_u64_digits().len();
+    let mut best = (x.clone(), num_bigint::verif_probe::raw_biguint(x).1);
+    for extra in [want.saturating_sub(len), want.saturating_sub(len) + 1, 2 * len + 2, 3 * len, len + 1] {
+        if extra == 0 {
+            continue;
+        }
+        let mut y = x.clone();
+        let k = 64 * extra;
+        y <<= k;
+        y >>= k;
+        let cap = num_bigint::verif_probe::raw_biguint(&y).1;
+        if cap > best.1 && y == *x {
+            best = (y, cap);
+        }
+        if best.1 >= want {
+            break;
+        }
+    }
+    best
+}
 pub fn bu_nat(n: &Nat) -> BigUint {
     bu(n.digits())
 }
